@@ -19,20 +19,40 @@ of a handle is the handle:
     check repeated on the same slot: nonce collision, tagged `collision`; the value then is the new
     object's handle);
   * a create never returns the slot of an object whose count is still > 0;
+  * a create returns the VALUE of an object whose count has reached 0 only if random() really repeated
+    the check (the values random() returns are part of the test input, on the `create` line): the
+    check a create must use is the first positive int32 among the values drawn, within 200 draws;
   * iteration: every `iter_next` answer `ok K hv` names an object with count > 0 and no accepted
     destroy, hv = hv(K), not visited before in this pass; at `end` every object that had count > 0
     and no destroy during the whole pass (since the last iter_reset) has been visited.
+A `createfail` line (qb_hdb_handle_create whose allocation fails) must answer an error, run no
+destructor and create no object: nothing it leaves behind may be visited by iteration or resolved by get.
 Never-issued values (the forms nK zK sK:N kK:HEX rHEX when they do not coincide with an issued
 value): the statement promises nothing about arbitrary integers; the oracle only requires that
 they cannot damage an issued object: a get that succeeds must go through the no-check form
 (check 0xffffffff) and resolve to the object living in that slot (counted as a get of it); an
 accepted put/destroy on a slot holding a live object must use the no-check form (counted as a
 put/destroy of it); on a slot holding no object anything may happen (the documented quirk: check 0
-matches a zeroed entry).
+matches a zeroed entry; after a failed allocation the EMPTY entry keeps the reference the create had
+taken, so such a put can reach zero and call the destructor with a NULL instance: tagged
+`dtor-null-on-empty-slot`, accepted ONLY there).
 """
 
 NOCHECK = 0xFFFFFFFF
 MAXSLOTS = 65536
+
+
+def drawn_check(words):
+    """the check qb_hdb_handle_create is entitled to use, given the values random() returns for this call
+    (the numbers on the `create` line; calls beyond the list repeat the last one; no number = 0):
+    the first of at most 200 draws whose int32 reading is positive, else the 200th draw"""
+    vals = [int(x) for x in words] or [0]
+    c = 0
+    for i in range(200):
+        c = vals[i if i < len(vals) else len(vals) - 1] & 0xFFFFFFFF
+        if 0 < c < 2 ** 31:
+            break
+    return c
 
 
 def resolve(tok, issued):
@@ -167,6 +187,10 @@ def analyse(ops, out):
             if o.slot in usedslots:
                 tags.add("slot-reuse")
             if h in byval:
+                # the same 64-bit value again: only random() repeating itself on this slot excuses that
+                if drawn_check(w[1:]) != o.check:
+                    return fail(i, "create re-issued the handle value %016x of destroyed object %d although "
+                                "random() supplied the fresh check %08x" % (h, byval[h][-1].k, drawn_check(w[1:])))
                 tags.add("collision")
             byval.setdefault(h, []).append(o)
             if o.check == 0:
@@ -179,6 +203,18 @@ def analyse(ops, out):
             slotobj[o.slot] = o
             objs.append(o)
             issued.append(h)
+            continue
+        if cmd == "dump":
+            # the table itself: compared with the model only (correspondence), the statement says nothing about it
+            if dt or r[0] != "tbl":
+                return fail(i, "unexpected answer %r" % res)
+            continue
+        if cmd == "createfail":
+            if dt:
+                return fail(i, "destructor ran during a failing create")
+            if ok or not res.startswith("E"):
+                return fail(i, "unexpected answer %r to a create whose allocation fails" % res)
+            tags.add("create-enomem" if res == "ENOMEM" else "create-limit")
             continue
         if cmd == "iter_reset":
             if dt or not ok:
@@ -281,6 +317,10 @@ def analyse(ops, out):
                         tags.add("nocheck-" + cmd)
                     else:
                         tags.add("foreign-accepted-on-empty-slot")
+                        if dt == ["null"]:
+                            # no object lives in the slot: the entry kept the reference of a failed create
+                            tags.add("dtor-null-on-empty-slot")
+                            dt = []
             if target is not None:
                 target.count -= 1
                 if cmd == "destroy":
@@ -442,13 +482,13 @@ def gen_case(rng, nops=None):
     style = rng.random()
     # op weights by style
     if style < 0.45:       # life cycles with slot reuse
-        wts = dict(create=18, get=14, geta=3, put=26, destroy=12, refcount=10, iter_reset=2, iter_next=6, drain=5, stale=8, passit=1)
+        wts = dict(create=18, get=14, geta=3, put=26, destroy=12, refcount=10, iter_reset=2, iter_next=6, drain=5, stale=8, passit=1, cfail=3)
     elif style < 0.70:     # iteration heavy
-        wts = dict(create=16, get=8, geta=2, put=14, destroy=12, refcount=6, iter_reset=6, iter_next=28, drain=3, stale=3, passit=4)
+        wts = dict(create=16, get=8, geta=2, put=14, destroy=12, refcount=6, iter_reset=6, iter_next=28, drain=3, stale=3, passit=4, cfail=3)
     elif style < 0.88:     # never-issued values
-        wts = dict(create=14, get=18, geta=4, put=22, destroy=12, refcount=14, iter_reset=1, iter_next=4, drain=4, stale=6, passit=1)
+        wts = dict(create=14, get=18, geta=4, put=22, destroy=12, refcount=14, iter_reset=1, iter_next=4, drain=4, stale=6, passit=1, cfail=4)
     else:                  # many objects, few ops each
-        wts = dict(create=40, get=8, geta=1, put=20, destroy=12, refcount=6, iter_reset=2, iter_next=8, drain=4, stale=4, passit=2)
+        wts = dict(create=40, get=8, geta=1, put=20, destroy=12, refcount=6, iter_reset=2, iter_next=8, drain=4, stale=4, passit=2, cfail=2)
     names = list(wts)
     weights = [wts[n] for n in names]
     for _ in range(rng.randrange(1, 4)):
@@ -465,6 +505,27 @@ def gen_case(rng, nops=None):
                 g.ops.append("iter_next")
                 if rng.random() < 0.25 and g.live():
                     g.op(rng.choice(["put", "destroy", "get"]), "h%d" % rng.choice(g.live()))
+        elif cmd == "cfail":
+            # a create whose allocation fails (often right after a slot was released), then look at what it left
+            if g.live() and rng.random() < 0.5:
+                k = rng.choice(g.live())
+                guard = 0
+                while not g.est[k][2] and guard < 12:
+                    g.op("put", "h%d" % k)
+                    guard += 1
+            g.ops.append("createfail")
+            r = rng.random()
+            if r < 0.35:
+                g.ops.append("iter_reset")
+                for _ in range(len(g.live()) + 2):
+                    g.ops.append("iter_next")
+            elif r < 0.7 and g.n:
+                for _ in range(rng.randrange(1, 4)):
+                    k = rng.randrange(0, g.n)
+                    g.op(rng.choice(["get", "geta", "put", "destroy", "refcount"]),
+                         rng.choice(["n%d", "z%d", "h%d", "s%d:" + str(g.n)]) % k)
+            if rng.random() < 0.5:
+                g.create()
         elif cmd == "drain":
             # destroy (maybe) and put until the count is exhausted, then poke the stale handle
             if not g.live():
@@ -489,6 +550,9 @@ def gen_case(rng, nops=None):
             pref = "live" if rng.random() < 0.75 else None
             tok = g.hexpr(pref)
             g.op(cmd, tok)
+        if rng.random() < 0.03:
+            g.ops.append("dump")
+    g.ops.append("dump")
     return g.ops
 
 
